@@ -1,8 +1,9 @@
-(** Provenance of the heads a waiter receives (Model/PoolWait.v): every head in
-    a waiter channel was published for the connection that was the best one at
-    that moment, and that connection really had reached it. *)
-From Coq Require Import List NArith Bool Arith Lia.
-From Tongo Require Import Model.PoolWait Proofs.PoolWaitP.
+(** The waiter's contract in the repaired wait-list protocol (Model/PoolWait.v):
+    provenance of the heads a waiter receives (soundness of success), the
+    keep-the-newer notification never loses a sufficient head (completeness),
+    a notification reaches every registered waiter, timeout / cancel always enabled. *)
+From Coq Require Import List NArith ZArith Bool Arith Lia.
+From Tongo Require Import Model.Pool Model.PoolWait Proofs.PoolWaitP.
 Import ListNotations.
 
 Lemma same_best_true s c : same_best s c = true -> best s = Some c.
@@ -11,11 +12,25 @@ Proof.
   intros H. apply Nat.eqb_eq in H. congruence.
 Qed.
 
+(** notifySubscriber keeps the head with the larger seqno *)
+Lemma newer_cases old u : newer old u = u \/ old = Some (newer old u).
+Proof. unfold newer. destruct old as [m|]; [|auto]. destruct (snd u <? snd m)%N; auto. Qed.
+
+Lemma newer_ge_new old u : (snd u <= snd (newer old u))%N.
+Proof.
+  unfold newer. destruct old as [m|]; [|lia].
+  destruct (N.ltb_spec (snd u) (snd m)); lia.
+Qed.
+
+Lemma newer_ge_old m u : (snd m <= snd (newer (Some m) u))%N.
+Proof. unfold newer. destruct (N.ltb_spec (snd u) (snd m)); lia. Qed.
+
 Section Msg.
+  Variable strat : strategy.
   Variable nconns : nat.
   Variable tgt : nat -> N.
-  Notation step := (step nconns tgt).
-  Notation reachable := (reachable nconns tgt).
+  Notation step := (step strat nconns tgt).
+  Notation reachable := (reachable strat nconns tgt).
 
   (** the ghost field [log] grows only by heads of the connection that is the best
       one in that very state: at subscribe (its current head) and when Run starts
@@ -28,7 +43,7 @@ Section Msg.
   Proof.
     intros Hs. step_inv Hs; guards; sred; try (left; reflexivity).
     - right. destruct u as [c h]. exists c, h. sred.
-      repeat apply conj; [reflexivity|apply same_best_true; exact Heqb|].
+      repeat apply conj; [reflexivity|apply same_best_true; assumption|].
       right. eexists. split; reflexivity.
     - right. exists n, (head s n). repeat apply conj; [reflexivity|reflexivity|].
       left. eexists. split; reflexivity.
@@ -37,7 +52,7 @@ Section Msg.
   Definition msg_inv (s : state) : Prop :=
     (forall w m, wch s w = Some m -> In m (log s)) /\
     (forall w m, wgot s w = Some m -> In m (log s)) /\
-    (forall u w rem, rpc s = RNotify u (w :: rem) -> In u (log s)) /\
+    (forall u mt w rem, rpc s = RNotify u mt (w :: rem) -> In u (log s)) /\
     (forall w, (wpc s w = WUnsub ROk \/ wpc s w = WDone ROk) <->
                exists m, wgot s w = Some m /\ (tgt w <= snd m)%N).
 
@@ -60,7 +75,7 @@ Section Msg.
     all: repeat apply conj.
     all: intros; try split; intros; fu; sred.
     all: repeat match goal with
-         | H : RNotify _ _ = RNotify _ _ |- _ => injection H as ? ?; subst
+         | H : RNotify _ _ _ = RNotify _ _ _ |- _ => injection H as ? ? ?; subst
          | H : (_ <=? _)%N = true |- _ => apply N.leb_le in H
          | H : (_ <=? _)%N = false |- _ => apply N.leb_gt in H
          end.
@@ -74,8 +89,12 @@ Section Msg.
                       first [congruence | left; congruence | right; congruence] end].
     all: try solve [match goal with H : exists _, Some _ = Some _ /\ _ |- _ =>
                       destruct H as (? & [= <-] & ?); lia end].
-    all: match goal with H : Some _ = Some _ |- _ => injection H as <- end.
-    all: try solve [eapply Hnot; reflexivity]; eauto.
+    all: try solve [eapply Hnot; reflexivity].
+    all: try solve [match goal with H : Some _ = Some _ |- _ => injection H as <- end;
+                    match goal with |- In (newer ?o ?u) _ =>
+                      destruct (newer_cases o u) as [Hn|Hn];
+                      [rewrite Hn; eapply Hnot; reflexivity|eapply Hch; exact Hn] end].
+    all: try solve [match goal with H : Some _ = Some _ |- _ => injection H as <- end; eauto].
   Qed.
 
   Theorem msg_inv_reachable heads b s :
@@ -88,17 +107,24 @@ Section Msg.
   Definition head_inv (s : state) : Prop :=
     (forall c h, In (c, h) (log s) -> (h <= head s c)%N) /\
     (forall c h, In (c, h) (updq s) -> (h <= head s c)%N) /\
-    (forall c h, rpc s = RWantR (c, h) -> (h <= head s c)%N) /\
-    (forall c h, cpc s c = CPub h -> (h <= head s c)%N).
+    (forall c h, In (c, h) (pend s) -> (h <= head s c)%N) /\
+    (forall c h, rpc s = RWantR (c, h) -> (h <= head s c)%N).
 
   Lemma head_inv_init heads b : head_inv (init_state heads b).
   Proof.
     unfold head_inv, init_state. sred. repeat apply conj; try discriminate; intros c h [].
   Qed.
 
+  Lemma In_remove_nth {A} (x : A) k : forall l, In x (remove_nth k l) -> In x l.
+  Proof.
+    induction k as [|k IH]; intros [|y t] Hin; cbn [remove_nth] in Hin; try contradiction.
+    - right. exact Hin.
+    - destruct Hin as [->|Hin]; [left; reflexivity|right; apply IH; exact Hin].
+  Qed.
+
   Lemma head_inv_step s l s' : head_inv s -> step s l = Some s' -> head_inv s'.
   Proof.
-    intros (Hlog & Hq & Hr & Hc) Hs. unfold head_inv.
+    intros (Hlog & Hq & Hpd & Hr) Hs. unfold head_inv.
     step_inv Hs; guards; sred.
     all: repeat match goal with
          | H : (_ <? _)%N = true |- _ => apply N.ltb_lt in H
@@ -107,22 +133,24 @@ Section Msg.
     all: intros; fu; sred.
     all: try solve [eauto].
     all: repeat match goal with
+         | H : In _ (remove_nth _ _) |- _ => apply In_remove_nth in H
          | H : In _ (_ ++ _) |- _ => apply in_app_or in H as [H|H]
          | H : In _ [_] |- _ => destruct H as [H|[]]
-         | H : (_, _) = (_, _) |- _ => injection H as ? ?; subst
-         | H : CPub _ = CPub _ |- _ => injection H as ?; subst
+         | H : (_, _) = (_, _) |- _ => first [injection H as ? ?|injection H as ?|clear H]; subst
          | H : RWantR _ = RWantR _ |- _ => injection H as ?; subst
          | H : updq _ = _ :: _ |- _ => rewrite H in *
+         | H : nth_error _ _ = Some _ |- _ => apply nth_error_In in H
          end.
     all: try match goal with H : In _ (log _) |- _ => apply Hlog in H end.
     all: try match goal with H : In _ (updq _) |- _ => apply Hq in H end.
-    all: try match goal with H : cpc _ _ = CPub _ |- _ => apply Hc in H end.
+    all: try match goal with H : In _ (pend _) |- _ => apply Hpd in H end.
     all: try match goal with H : rpc _ = RWantR (_, _) |- _ => apply Hr in H end.
     all: try lia.
     all: try discriminate.
     all: try solve [apply Hq; simpl; eauto].
     all: try solve [eapply Hr; eauto].
-    subst u. apply Hr. reflexivity.
+    all: try solve [subst; apply Hr; reflexivity].
+    all: try solve [subst; eauto].
   Qed.
 
   Theorem head_inv_reachable heads b s :
@@ -131,9 +159,9 @@ Section Msg.
     induction 1 as [|s l s' _ IH Hs]; [apply head_inv_init|exact (head_inv_step _ _ _ IH Hs)].
   Qed.
 
-  (** ---- the waiter's contract ---- *)
+  (** ---- success: soundness ---- *)
 
-  (** success (the waiter left its loop with nil, or has returned nil) iff it
+  (** success (the waiter left its loop with nil, or has returned nil) only if it
       received a head at or beyond its target; that head was published for the
       connection that was the best one when it was sent ([log], see
       [log_from_best]) and the connection had really reached it *)
@@ -161,17 +189,31 @@ Section Msg.
   Theorem wait_leave_enabled s w r :
     wpc s w = WWait -> r <> ROk -> exists s', step s (LLeave w r) = Some s' /\ wpc s' w = WUnsub r.
   Proof.
-    intros Hpc Hr. unfold step. rewrite Hpc.
+    intros Hpc Hr. unfold PoolWait.step. rewrite Hpc.
     destruct r; [contradiction| |]; eexists; (split; [reflexivity|]); sred; apply fupd_same.
   Qed.
 
   Theorem wait_recv_enabled s w m :
     wpc s w = WWait -> wch s w = Some m ->
     exists s', step s (LRecv w) = Some s' /\
-      wpc s' w = (if (tgt w <=? snd m)%N then WUnsub ROk else WWait) /\ wch s' w = None.
+      wpc s' w = (if (tgt w <=? snd m)%N then WUnsub ROk else WWait) /\ wch s' w = None /\
+      wgot s' w = Some m.
   Proof.
-    intros Hpc Hch. unfold step. rewrite Hpc, Hch. eexists. split; [reflexivity|].
+    intros Hpc Hch. unfold PoolWait.step. rewrite Hpc, Hch. eexists. split; [reflexivity|].
     sred. rewrite !fupd_same. auto.
+  Qed.
+
+  (** subscribe when the best connection is already at the target: the head is put
+      into the fresh channel, nothing is registered, the first receive succeeds *)
+  Theorem wait_immediate s w b :
+    wpc s w = WSubL -> writer s = Some (AW w) -> best s = Some b -> (tgt w <= head s b)%N ->
+    exists s1 s2, step s (LSubBody w) = Some s1 /\ step s1 (LRecv w) = Some s2 /\
+                  wpc s2 w = WUnsub ROk /\ writer s1 = None /\ wl s1 = wl s.
+  Proof.
+    intros Hpc Hwr Hb Hle. unfold PoolWait.step at 1. rewrite Hpc. unfold is_writer.
+    rewrite Hwr, Nat.eqb_refl, Hb. apply N.leb_le in Hle. rewrite Hle.
+    eexists. eexists. split; [reflexivity|]. unfold PoolWait.step. sred. rewrite !fupd_same. sred.
+    rewrite Hle. split; [reflexivity|]. sred. rewrite fupd_same. auto.
   Qed.
 
   (** an error result is only ever produced by the timeout / cancel branch *)
@@ -183,11 +225,118 @@ Section Msg.
     all: match goal with H : (if ?b then _ else _) = _ |- _ => destruct b; congruence end.
   Qed.
 
-  (** returning (running the deferred unsubscribe) needs the pool lock: it is
-      enabled exactly when nobody holds it *)
-  Theorem wait_return_enabled s w r :
-    wpc s w = WUnsub r -> (step s (LUnsub w) <> None <-> lock_free s = true).
+  (** ---- success: completeness (no sufficient head is ever lost) ---- *)
+
+  (** [woff s w] is the ghost list of all heads sent into w's channel.  While the
+      waiter has not left, a sufficient head among them is still in the channel
+      (or a newer one is): replacing the pending head keeps the larger seqno. *)
+  Definition offer_inv (s : state) : Prop :=
+    forall w, (wpc s w = WNew \/ wpc s w = WSubL \/ wpc s w = WWait) ->
+      forall m, In m (woff s w) -> (tgt w <= snd m)%N ->
+        exists m', wch s w = Some m' /\ (tgt w <= snd m')%N.
+
+  Lemma offer_inv_init heads b : offer_inv (init_state heads b).
+  Proof. unfold offer_inv, init_state. sred. intros w _ m []. Qed.
+
+  Lemma offer_inv_step s l s' : offer_inv s -> step s l = Some s' -> offer_inv s'.
   Proof.
-    intros Hpc. unfold step. rewrite Hpc. destruct (lock_free s); split; congruence.
+    intros Hoff Hs. unfold offer_inv.
+    step_inv Hs; guards; sred; try exact Hoff.
+    all: intros w' Hpc m' Hin Hle; fu; sred.
+    all: repeat match goal with
+         | H : (_ <=? _)%N = true |- _ => apply N.leb_le in H
+         | H : (_ <=? _)%N = false |- _ => apply N.leb_gt in H
+         end.
+    all: try solve [eapply Hoff; eauto].
+    all: try solve [destruct Hpc as [Hpc|[Hpc|Hpc]]; discriminate Hpc].
+    - (* LSend into w's channel: the channel keeps the newer head *)
+      exists (newer (wch s n) u). split; [reflexivity|].
+      apply in_app_or in Hin as [Hin|[Heq|[]]].
+      + destruct (Hoff _ Hpc _ Hin Hle) as (m0 & Hch & Hle0). rewrite Hch.
+        eapply N.le_trans; [exact Hle0|exact (newer_ge_old m0 u)].
+      + subst m'. eapply N.le_trans; [exact Hle|exact (newer_ge_new (wch s n) u)].
+    - (* subscribe, head already there *)
+      eexists. split; [reflexivity|]. sred. assumption.
+    - (* receive of an insufficient head: then nothing sufficient had been offered *)
+      exfalso. assert (Hpc0 : wpc s w = WNew \/ wpc s w = WSubL \/ wpc s w = WWait) by auto.
+      destruct (Hoff _ Hpc0 _ Hin Hle) as (m0 & Hch & Hle0).
+      match goal with H : wch s w = Some _ |- _ => rewrite H in Hch; injection Hch as <- end. lia.
+  Qed.
+
+  Theorem offer_inv_reachable heads b s :
+    reachable (init_state heads b) s -> offer_inv s.
+  Proof.
+    induction 1 as [|s l s' _ IH Hs]; [apply offer_inv_init|exact (offer_inv_step _ _ _ IH Hs)].
+  Qed.
+
+  (** a waiter in its loop to which a sufficient head has been sent finds a
+      sufficient head in its channel, and its receive step returns success *)
+  Theorem wait_not_missed heads b s w m :
+    reachable (init_state heads b) s ->
+    wpc s w = WWait -> In m (woff s w) -> (tgt w <= snd m)%N ->
+    exists m' s', wch s w = Some m' /\ (tgt w <= snd m')%N /\
+                  step s (LRecv w) = Some s' /\ wpc s' w = WUnsub ROk.
+  Proof.
+    intros Hr Hpc Hin Hle.
+    destruct (offer_inv_reachable _ _ _ Hr w (or_intror (or_intror Hpc)) m Hin Hle) as (m' & Hch & Hle').
+    destruct (wait_recv_enabled s w m' Hpc Hch) as (s' & Hs & Hpc' & _).
+    exists m', s'. repeat apply conj; auto.
+    rewrite Hpc'. apply N.leb_le in Hle'. rewrite Hle'. reflexivity.
+  Qed.
+
+  (** ---- a notification of the best connection's head reaches every registered waiter ---- *)
+
+  Definition cover_inv (s : state) : Prop :=
+    forall u rem, rpc s = RNotify u true rem ->
+      forall e, In e (wl s) -> In (snd e) rem \/ In u (woff s (snd e)).
+
+  Lemma mem_In x l : mem x l = true -> In x l.
+  Proof.
+    unfold mem. intros H. apply existsb_exists in H as (y & Hy & He).
+    apply Nat.eqb_eq in He. subst. exact Hy.
+  Qed.
+
+  Lemma cover_inv_step s l s' :
+    lock_inv s -> cover_inv s -> step s l = Some s' -> cover_inv s'.
+  Proof.
+    intros (Hrd & Hmx & _ & Hw) Hcov Hs. unfold cover_inv.
+    step_inv Hs; guards; sred; try exact Hcov; try discriminate.
+    all: intros u' rem' Hp e He; sred.
+    all: try solve [eapply Hcov; eauto].
+    all: try discriminate.
+    - (* RLock: the order covers the wait list *)
+      injection Hp as <- <-. left.
+      match goal with H : is_order _ _ = true |- _ =>
+        unfold is_order in H; apply andb_true_iff in H as [_ H];
+        rewrite forallb_forall in H; apply mem_In; apply H; apply in_map; exact He end.
+    - (* send *)
+      injection Hp as ? ? ?; subst.
+      destruct (Hcov _ _ Heqr e He) as [[Heq|Hin]|Hin].
+      + right. rewrite Heq, fupd_same. apply in_or_app. right. left. reflexivity.
+      + left. exact Hin.
+      + right. fu; [apply in_or_app; left; exact Hin|exact Hin].
+    - (* subscribe cannot run while Run holds the read lock *)
+      rewrite Hp in Hmx. specialize (Hmx _ _ _ eq_refl). congruence.
+    - rewrite Hp in Hmx. specialize (Hmx _ _ _ eq_refl). congruence.
+    - (* unsubscribe only removes *)
+      apply filter_In in He as [He _]. eapply Hcov; eauto.
+  Qed.
+
+  Theorem cover_inv_reachable heads b s :
+    reachable (init_state heads b) s -> cover_inv s.
+  Proof.
+    induction 1 as [|s l s' Hr IH Hs].
+    - unfold cover_inv, init_state. sred. discriminate.
+    - eapply cover_inv_step; [eapply lock_inv_reachable; exact Hr|exact IH|exact Hs].
+  Qed.
+
+  (** when Run has finished notifying a head of the best connection, every waiter
+      registered at that moment has been sent it *)
+  Theorem notify_reaches_all heads b s u :
+    reachable (init_state heads b) s -> rpc s = RNotify u true [] ->
+    forall id w, In (id, w) (wl s) -> In u (woff s w).
+  Proof.
+    intros Hr Hp id w He.
+    destruct (cover_inv_reachable _ _ _ Hr _ _ Hp _ He) as [[]|H]. exact H.
   Qed.
 End Msg.
